@@ -109,6 +109,7 @@ func runQueueBFS(ctx *report.Ctx, maxLive int) {
 				ctx.Capped("deadline in Q")
 				return
 			}
+			ctx.Progress.Add(1)
 			q, model, seq, mm := applyQueue(nd.hist)
 			if mm != "" {
 				continue // reported when the transition was taken
